@@ -229,6 +229,11 @@ def jobs(tier):
                         params=dict(entry=entry, N=2 if q else 3, kinds=["ok", "exc", "res"], classes=["TRANSIENT"],
                                     timed=True, strat=dict(raw="real"), operation=OPNAME),
                         max_wall_s=wall, weight=2))
+    # hooks handed over as falsy callable objects: every sink must still receive the stream
+    for entry in ["retry.execute", "aretry.execute", "policy.call"]:
+        out.append(dict(name=f"falsy:{entry}", harness="rv.props.c14:h_run",
+                        params=dict(entry=entry, N=2, kinds=kinds, classes=["TRANSIENT", "PERMANENT"], handler=True,
+                                    operation=OPNAME, falsy=True), max_wall_s=wall, weight=2))
     # a sleep handler that takes time: the deadline may pass while it decides; still exactly one terminal event
     for entry in ["retry.call", "retry.execute", "aretry.call", "aretry.execute"]:
         out.append(dict(name=f"slow_handler:{entry}", harness="rv.props.c14:h_run",
